@@ -16,16 +16,26 @@ for d in sorted(glob.glob(os.path.join(ROOT, "seeded", "C*_*"))):
         out = open(os.path.join(d, "check_output.txt")).read()
     except OSError:
         pass
+    # one section per check that was run against the change: "== <ID> on <name>"
+    secs = re.split(r"^== (C\d+) on .*$", out, flags=re.M)
+    per = {}
+    for i in range(1, len(secs) - 1, 2):
+        per[secs[i]] = secs[i + 1]
+    if not per and out:
+        per[name.split("_")[0]] = out
+    caught_by = [i for i, t in per.items() if re.search(r"^VIOLATION", t, re.M)]
     viol = re.findall(r"^VIOLATION.*$", out, re.M)
     what = re.findall(r"^  \((.*)$", out, re.M)
     caught = bool(viol)
     with_input = any("no-failing-input-found" not in v for v in viol)
+    infra = bool(re.search(r"hygiene gate|inconsistent assumptions|library build failed|check crashed|PATCH DOES NOT APPLY|^ERROR", out, re.M))
     conf = "yes" if meta.get("existing_suite_passes_with_change") and meta.get("demo_fails_with_change") and meta.get("demo_passes_without_change") else \
            ("partly (%s/%s/%s)" % (meta.get("existing_suite_passes_with_change"), meta.get("demo_fails_with_change"), meta.get("demo_passes_without_change")))
     summ = (meta.get("summary") or "").replace("|", "/").replace("\n", " ")[:230]
     needs = (str(meta.get("needs") or "")).replace("|", "/").replace("\n", " ")[:160]
     rows.append("| %s | %s | %s | %s | %s | %s |" % (name, summ, needs, conf,
-                ("**caught**" + (" (failing input)" if with_input else " (no failing input)")) if caught else ("not run" if not out else "**missed**"),
+                (("**caught** by " + ", ".join(caught_by) + (" (failing input)" if with_input else " (no failing input)")) if caught else ("not run" if not out else "**missed**"))
+                + (" [INFRA?]" if infra else ""),
                 (what[0][:200].replace("|", "/") if what else "")))
 print("| seed | change | needs | confirmed (suite passes / demo fails with / passes without) | result of `bin/fv check` | first report |")
 print("|---|---|---|---|---|---|")
